@@ -387,6 +387,7 @@ theorem reload_sees_saved_bytes (fmt : R → List UInt8) (env : Env R) (hd : env
     (hsmall : b'.bytes.length ≤ fileMax) (hpf : 3 * b'.bytes.length ≤ pfuel)
     (fuel : Nat) (hfuel : b'.doc.st.secs.length + 1 ≤ fuel) (rfuel : Nat) :
     ∃ t T, openB env pfuel dec fuel b'.bytes = .ok (b0.doc.st.start, t, T) ∧
+      dictGet T SaveBytes.kRoot = some (.ref b0.doc.tr.root.1 b0.doc.tr.root.2) ∧
       (∀ id v, specRun AMap.empty (liftOps fmt b0 ops) (runB fmt b0 ops).2 id = some v →
         ∃ o, resolveB env pfuel dec (rfuel + 2) b'.bytes b0.doc.st.start t id = .ok o ∧ Denotes b'.bytes o v) ∧
       (∀ id, id < b0.doc.st.refs.length → specRun AMap.empty (liftOps fmt b0 ops) (runB fmt b0 ops).2 id = none →
@@ -410,15 +411,16 @@ theorem reload_sees_saved_bytes (fmt : R → List UInt8) (env : Env R) (hd : env
   obtain ⟨r1, r2, r3⟩ := runB_run fmt ops b0
   obtain ⟨s1, _, _⟩ := saveB_cases fmt _ _ _ hs
   rw [r3, r1] at s1
-  obtain ⟨dr, hrl, _, hw, ho⟩ := reload_sees_saved (params fmt b0.ids) b0.doc chain0 hb (liftOps fmt b0 ops)
+  obtain ⟨dr, hrl, htr, hw, ho⟩ := reload_sees_saved (params fmt b0.ids) b0.doc chain0 hb (liftOps fmt b0 ops)
     (liftOps_ok fmt ops b0) (layoutOf fmt (runB fmt b0 ops).1) (layoutOf_pos fmt _) b'.doc i s1 false
   rw [← r2] at hw ho
   -- the bridge
-  obtain ⟨T, hopen⟩ := open_of_rep (parsers env pfuel dec) b'.bytes b'.doc.st h2.rep false dr hrl fuel hfuel
-  obtain ⟨_, _, _, _, _, _, _, hdr⟩ := reload_ok_spec b'.doc.st false dr hrl
+  obtain ⟨T, hopen, hroot⟩ := open_of_rep (parsers env pfuel dec) b'.bytes b'.doc.st h2.rep false dr hrl fuel hfuel
+  obtain ⟨_, _, _, _, _, _, _, hdr, _⟩ := reload_ok_spec b'.doc.st false dr hrl
   have hst : b'.doc.st.start = b0.doc.st.start := h2.inv.start_eq
   rw [hst] at hopen
-  refine ⟨dr.st.refs, T, hopen, ?_, ?_⟩
+  rw [htr] at hroot
+  refine ⟨dr.st.refs, T, hopen, hroot, ?_, ?_⟩
   · intro id v hsp
     have := hw id v hsp
     rw [hdr] at this
@@ -443,6 +445,7 @@ theorem reload_sees_pending_bytes (fmt : R → List UInt8) (env : Env R) (hd : e
     (hsmall : b'.bytes.length ≤ fileMax) (hpf : 3 * b'.bytes.length ≤ pfuel)
     (fuel : Nat) (hfuel : b'.doc.st.secs.length + 1 ≤ fuel) (rfuel : Nat) :
     ∃ t T, openB env pfuel dec fuel b'.bytes = .ok (b0.doc.st.start, t, T) ∧ t.length = i.size + 1 ∧
+      dictGet T SaveBytes.kRoot = some (.ref b0.doc.tr.root.1 b0.doc.tr.root.2) ∧
       (∀ id v g, chLookup (prep b.doc).st2.changes id = some (v, g) →
         ∃ o, resolveB env pfuel dec (rfuel + 2) b'.bytes b0.doc.st.start t id = .ok o ∧ Denotes b'.bytes o v) := by
   have hstep : stepB fmt b .save = (b', .saved i) := by simp [stepB, hs]
@@ -452,11 +455,13 @@ theorem reload_sees_pending_bytes (fmt : R → List UInt8) (env : Env R) (hd : e
   rw [hstep] at h2
   obtain ⟨s1, _, _⟩ := saveB_cases fmt _ _ _ hs
   obtain ⟨t, hrl, facts⟩ := reload_after_save _ _ (layoutOf_pos fmt b) b0.doc b.doc b'.doc chain0 i hb h1.inv s1 false
-  obtain ⟨T, hopen⟩ := open_of_rep (parsers env pfuel dec) b'.bytes b'.doc.st h2.rep false _ hrl fuel hfuel
+  obtain ⟨T, hopen, hroot⟩ := open_of_rep (parsers env pfuel dec) b'.bytes b'.doc.st h2.rep false _ hrl fuel hfuel
   have hst : b'.doc.st.start = b0.doc.st.start := h2.inv.start_eq
   rw [hst] at hopen
+  simp only at hroot
+  rw [h1.inv.tr_eq] at hroot
   obtain ⟨_, _, _, _, _, _, _, _, hsize, _, _⟩ := save_ok_spec _ _ _ _ _ s1
-  refine ⟨t, T, hopen, by rw [facts.len, hsize], ?_⟩
+  refine ⟨t, T, hopen, by rw [facts.len, hsize], hroot, ?_⟩
   intro id v g hc
   have := facts.pending id v g hc false
   have := resolve_of_rep (parsers env pfuel dec) b'.bytes b'.doc.st h2.rep t false id v this rfuel
